@@ -57,7 +57,7 @@ fn configs(tier: &str) -> Vec<Cfg> {
     v
 }
 
-const POSITIONS: [(&str, &str); 9] = [
+const POSITIONS: [(&str, &str); 11] = [
     ("Op::Direct", "body-direct"),
     ("Op::Opt", "body-optional"),
     ("Op::Many#0", "body-repeated-first"),
@@ -67,6 +67,8 @@ const POSITIONS: [(&str, &str); 9] = [
     ("Op::attr", "body-attribute"),
     ("DerivedT::Inh", "body-inherited-member"),
     ("Hdr::Token", "header"),
+    ("Op::Coded", "body-ref-to-global-element"),
+    ("Op::PickA", "body-choice-branch"),
 ];
 
 fn build(cfg: &Cfg) -> SchemaSet {
@@ -100,10 +102,13 @@ fn build(cfg: &Cfg) -> SchemaSet {
                 el_occ("Many", r.clone(), 0, Max::Unbounded),
                 el("Nested", TypeRef::n(NS_W, "Level1")),
                 el("Derived", TypeRef::n(NS_W, "DerivedT")),
+                Particle::Ref(ElemRef { target: QName::new(NS_W, "Coded"), min: 0, max: Max::N(1) }),
+                Particle::Choice(vec![el("PickA", r.clone()), el("PickB", TypeRef::b("string"))]),
             ])),
             attrs: vec![Attr { name: "attr".into(), ty: r.clone(), required: false, value_constraint: None }],
         },
     }));
+    w.schema.comps.push(typed_element("Coded", r.clone()));
     w.schema.comps.push(anon_element("Hdr", vec![el("Token", r.clone())]));
     w.schema.comps.push(anon_element("OpResponse", vec![el("Result", TypeRef::b("string"))]));
     w.messages = vec![
@@ -301,7 +306,7 @@ pub fn check(tier: &str) -> i32 {
     rep.set("verdicts_judged", json!(verdicts));
     rep.set("transmissions_judged", json!(transmissions));
     rep.set("exhaustive", json!(true));
-    rep.set("bound", json!("facet configurations (each facet kind on string/int/long, two pairs, derivation chains of depth 2 and 3) x 9 positions of the restricted value (direct, optional, first/second item of a repeated member, nested 1 and 2 levels, attribute, member inherited through a complex extension, header part) x placements: all-valid (each boundary value), every single position x every violating value, pairs (thorough: all; quick: neighbouring), one triple; transmission half for all-valid and single placements"));
+    rep.set("bound", json!("facet configurations (each facet kind on string/int/long, two pairs, derivation chains of depth 2 and 3) x 11 positions of the restricted value (direct, optional, first/second item of a repeated member, nested 1 and 2 levels, attribute, member inherited through a complex extension, header part, a ref= to a global element of the restricted type, a choice branch) x placements: all-valid (each boundary value), every single position x every violating value, pairs (thorough: all; quick: neighbouring), one triple; transmission half for all-valid and single placements"));
     rep.set("batch", json!({"packages": res.packages, "cache_hits": res.cache_hits, "build_s": res.build_secs, "run_s": res.run_secs}));
     rep.assume("the restriction-check trait and method are discovered through an impl in the emitted file");
     rep.finish()
